@@ -66,6 +66,28 @@ pub fn lists(thorough: bool, seed: usize) -> Vec<Vec<Vec<u8>>> {
     // long patterns (verification beyond the fingerprint), 1..4 byte minimum length
     v.push(vec![vec![b'a'; 30], { let mut p = vec![b'a'; 29]; p.push(b'b'); p }]);
     v.push(vec![b"x".to_vec(), b"abcdefghijklmnopqrstuvwxyz".to_vec()]);
+    // crowded fingerprint groups: 9 / 17 / 20 / 33 two-byte patterns with the low nybbles of "ab"
+    // (one verification bucket), an unrelated pattern, then patterns that overlap the first
+    // ones (longer with the same prefix, a duplicate): priority must survive any bucket policy
+    {
+        let firsts = [0x61u8, 0x41, 0x51, 0x71, 0x31, 0x21];
+        let seconds = [0x62u8, 0x42, 0x52, 0x72, 0x32, 0x22];
+        let group: Vec<Vec<u8>> = firsts.iter().flat_map(|&a| seconds.iter().map(move |&b| vec![a, b])).collect();
+        for n in [9usize, 16, 17, 20, 33] {
+            let mut l: Vec<Vec<u8>> = group[..n].to_vec();
+            l.push(b"zz".to_vec());
+            l.push(b"abcd".to_vec());
+            l.push(group[1].clone());
+            l.push(vec![0x41, 0x62, b'x']);
+            v.push(l);
+            // and with 4-byte fingerprints
+            let mut l4: Vec<Vec<u8>> = group[..n].iter().map(|p| { let mut q = p.clone(); q.extend_from_slice(b"cd"); q }).collect();
+            l4.push(b"zzzz".to_vec());
+            l4.push(b"abcdefgh".to_vec());
+            l4.push(l4[2].clone());
+            v.push(l4);
+        }
+    }
     // pattern lengths around the word sizes of a confirmation memcmp
     for k in 0..9usize {
         let lens = [13usize, 16, 17, 21, 22, 24, 29, 32, 40];
